@@ -1221,8 +1221,8 @@ def rt_floor(x):
 def rt_splitext(p):
     """os.path.splitext (posix genericpath._splitext) on a possibly symbolic path"""
     import os
-    if isinstance(p, str):
-        return os.path.splitext(p)
+    if not isinstance(p, SymStr):
+        return os.path.splitext(p)          # str, bytes, os.PathLike: the real function
     sep = p.rfind("/")
     dot = p.rfind(".")
     if dot > sep:
@@ -1236,7 +1236,7 @@ def rt_splitext(p):
 
 def rt_basename(p):
     import os
-    if isinstance(p, str):
-        return os.path.basename(p)
+    if not isinstance(p, SymStr):
+        return os.path.basename(p)          # str, bytes, os.PathLike: the real function
     i = p.rfind("/") + 1
     return p[i:]
